@@ -9,6 +9,7 @@ import base64
 import itertools
 import socket
 import struct
+import threading
 import time
 
 import dns.asyncquery
@@ -425,6 +426,105 @@ def run_refresh(case):
     return out
 
 
+class MiniServer:
+    """a loopback name server for dns.query.inbound_xfr: answers a transfer query over TCP / UDP with
+    the scripted messages for the serial found in the query (row None: any other serial / AXFR)"""
+
+    def __init__(self):
+        for _ in range(20):
+            self.tcp = socket.socket(socket.AF_INET, socket.SOCK_STREAM)
+            self.tcp.setsockopt(socket.SOL_SOCKET, socket.SO_REUSEADDR, 1)
+            self.tcp.bind(("127.0.0.1", 0))
+            self.port = self.tcp.getsockname()[1]
+            self.udp = socket.socket(socket.AF_INET, socket.SOCK_DGRAM)
+            try:
+                self.udp.bind(("127.0.0.1", self.port))
+                break
+            except OSError:
+                self.tcp.close()
+                self.udp.close()
+        self.tcp.listen(8)
+        self.script = {"udp": [], "tcp": []}
+        self.seen = []
+        threading.Thread(target=self.tcp_loop, daemon=True).start()
+        threading.Thread(target=self.udp_loop, daemon=True).start()
+
+    @staticmethod
+    def serial_of(wire):
+        q = dns.message.from_wire(wire)
+        if q.question[0].rdtype == dns.rdatatype.AXFR:
+            return None
+        return q.authority[0][0].serial
+
+    @staticmethod
+    def rows(table, ser):
+        for k, ms in table:
+            if k == ser:
+                return ms
+        return next((ms for k, ms in table if k is None), [])
+
+    @staticmethod
+    def recvn(c, n):
+        d = b""
+        while len(d) < n:
+            x = c.recv(n - len(d))
+            if not x:
+                raise EOFError
+            d += x
+        return d
+
+    def tcp_loop(self):
+        while True:
+            c, _ = self.tcp.accept()
+            try:
+                (l,) = struct.unpack("!H", self.recvn(c, 2))
+                ser = self.serial_of(self.recvn(c, l))
+                self.seen.append(("tcp", ser))
+                for w in self.rows(self.script["tcp"], ser):
+                    wire = wire_of(w)
+                    c.sendall(struct.pack("!H", len(wire)) + wire)
+            except Exception:  # noqa
+                pass
+            finally:
+                c.close()
+
+    def udp_loop(self):
+        while True:
+            data, addr = self.udp.recvfrom(65535)
+            try:
+                ser = self.serial_of(data)
+                self.seen.append(("udp", ser))
+                ms = self.rows(self.script["udp"], ser)
+                # one datagram (an empty one when nothing is scripted, so that the client never waits)
+                self.udp.sendto(wire_of(ms[0]) if ms else b"", addr)
+            except Exception:  # noqa
+                pass
+
+
+_server = None
+
+
+def run_top(case):
+    """dns.query.inbound_xfr over real loopback sockets (default query from the zone, UDP modes)"""
+    global _server
+    _, zk, rel, mode, z0, tu, tt = case[:7]
+    if _server is None:
+        _server = MiniServer()
+    _server.script = {"udp": tu, "tcp": tt}
+    _server.seen = []
+    z = build_zone(zk % 3, rel, z0)
+    code = 0
+    try:
+        dns.query.inbound_xfr("127.0.0.1", z, port=_server.port, timeout=5, lifetime=5,
+                              udp_mode=dns.query.UDPMode(mode))
+    except Exception as e:  # noqa
+        c = exc_code(e)
+        if c.code >= 800:
+            return c
+        code = c.code
+    return [code, dump_checked(z, rel)]
+
+
 def run_make_query(case):
     _, zs, ser = case
     z = dns.versioned.Zone(ORIGIN)
@@ -472,6 +572,8 @@ def impl(case):
             return run_group(case)
         if op == 6:
             return run_refresh(case)
+        if op == 8:
+            return run_top(case)
     except Exception as e:  # noqa  (harness-level failure: build_zone, rendering ...)
         return Err(950, "harness:" + type(e).__name__ + ":" + str(e))
     raise ValueError("bad op")
@@ -1194,6 +1296,40 @@ def refresh_cases(ctx, rng, n):
         yield "refresh", [6, zk, rel, maxver, pin, zdump(z0), refreshes]
 
 
+def top_cases(ctx, rng, n):
+    """dns.query.inbound_xfr end to end over loopback sockets: udp_mode NEVER / TRY_FIRST / ONLY; the UDP
+    answer is the complete response, the bare SOA (use TCP), or a broken one"""
+    for _ in range(n):
+        zk, rel = rng.randrange(3), rng.randrange(2)
+        mode = rng.choice([0, 1, 1, 2])
+        chain = gen_chain(rng, rng.choice([1, 2]), size=rng.choice([1, 2, 4]))
+        r = rng.random()
+        z0 = chain[0] if r < 0.8 else ({} if r < 0.9 else gen_zone(rng, soa_id(chain[0]) & 0xFFFFFFFF, size=2))
+        s0 = (soa_id(z0) & 0xFFFFFFFF) if z0 else None
+        same = z0 is chain[0]
+        recs = ixfr_stream(rng, chain, shuffle=rng.random() < 0.5) if same else axfr_stream(rng, chain[-1])
+        tcp_msgs = msgs_of(split(recs, rand_cuts(rng, len(recs))), IXFR if s0 is not None else AXFR, rng.choice([0, 1]))
+        u = rng.random()
+        if u < 0.4:
+            udp_msgs, udp_ok = msgs_of([recs], IXFR), True                       # complete answer in one datagram
+        elif u < 0.8:
+            udp_msgs, udp_ok = msgs_of([[soa_rec(chain[-1])]], IXFR), None      # "use TCP"
+        else:
+            udp_msgs, udp_ok = msgs_of([recs[:max(2, len(recs) - 1)]], IXFR), False   # incomplete datagram
+        tu = [[s0, udp_msgs], [None, udp_msgs]]
+        tt = [[s0, tcp_msgs], [None, msgs_of(split(axfr_stream(rng, chain[-1]), []), AXFR)]]
+        # expectation: 1 converge, 2 error
+        if s0 is None or mode == 0:
+            exp = VALID
+        elif udp_ok is True:
+            exp = VALID
+        elif udp_ok is None:
+            exp = VALID if mode == 1 else MUSTERR
+        else:
+            exp = MUSTERR
+        yield "top", [8, zk, rel, mode, zdump(z0), tu, tt, [exp, zdump(chain[-1])]]
+
+
 def misc_cases(ctx, rng):
     edge = [0, 1, 2, 2 ** 31 - 1, 2 ** 31, 2 ** 31 + 1, 2 ** 32 - 2, 2 ** 32 - 1]
     for a in edge:
@@ -1230,6 +1366,7 @@ def cases(ctx):
     yield from malformed_cases(ctx, rng, ctx.n(400, 4500))
     yield from feed_cases(ctx, rng, ctx.n(200, 2000))
     yield from refresh_cases(ctx, rng, ctx.n(250, 2500))
+    yield from top_cases(ctx, rng, ctx.n(120, 800))
 
 
 # ------------------------------------------------------------------ oracle
@@ -1243,7 +1380,7 @@ def oracle(ctx, kind, case, out):
 
     op = case[0]
     if isinstance(out, Err):
-        if op in (1, 2, 6) or out.code >= 900:
+        if op in (1, 2, 6, 8) or out.code >= 900:
             fail("unexpected exception " + out.text)
         return F
     if op == 4:
@@ -1285,6 +1422,17 @@ def oracle(ctx, kind, case, out):
             prev = target
         if len(out) != len(case[6]) and not F:
             fail("refresh sequence stopped early", sig="refresh-short")
+        return F
+    if op == 8:
+        code, dump = out
+        z0 = case[4]
+        tag, target = case[7]
+        if code != 0 and dump != z0:
+            fail("inbound_xfr raised but the zone is not what it was", sig="top-error-after-apply")
+        if tag == VALID and (code != 0 or dump != target):
+            fail("inbound_xfr did not bring the zone to the server's version", sig="top-not-converged")
+        if tag == MUSTERR and code == 0:
+            fail("inbound_xfr accepted an answer that must be rejected", sig="top-accepted")
         return F
     if op != 1:
         return F
